@@ -123,7 +123,7 @@ func c12Call(c pcall) []byte {
 		sb := st.Bytes()
 		out.Write(sb[:])
 	case "ipa_in_domain", "ipa_out_domain":
-		f := hx.FrSliceFromBig(polySpec{Kind: "dense", Seed: c.Seed}.evals())
+		f := hx.FrSliceFromBig(polySpec{Kind: []string{"dense", "sparse", "dense", "onehot"}[c.N%4], Seed: c.Seed, Idx: []int{c.K, (c.K + 100) & 255, 3}, Val: "7"}.evals())
 		comm := cfg.Commit(f)
 		zv := big.NewInt(int64(c.K))
 		if c.Op == "ipa_out_domain" {
@@ -272,7 +272,12 @@ func evalC12(c c12Case, rec *hx.Rec) error {
 	Cfg()
 	rec.Eval(1)
 	rec.Sample(c)
-	// sequential reference run
+	// sequential reference run: every call alone, under the default scheduler setting (GOMAXPROCS = NumCPU); the concurrent
+	// run below uses this process's GOMAXPROCS value (1, 2, 4, 16 ... set by the driver), so the comparison also shows a
+	// result that depends on GOMAXPROCS
+	gmp := runtime.GOMAXPROCS(0)
+	runtime.GOMAXPROCS(runtime.NumCPU())
+	defer runtime.GOMAXPROCS(gmp)
 	want := make([][][]byte, len(c.Plan))
 	for g, seq := range c.Plan {
 		for _, call := range seq {
@@ -283,6 +288,7 @@ func evalC12(c c12Case, rec *hx.Rec) error {
 			want[g] = append(want[g], o)
 		}
 	}
+	runtime.GOMAXPROCS(gmp)
 	raceBefore := raceLogSize()
 	got := make([][][]byte, len(c.Plan))
 	errs := make([]error, len(c.Plan))
